@@ -39,12 +39,12 @@ func init() {
 			}
 			for s := 0; s < tierPick(tier, 4, 16); s++ {
 				bs = append(bs, core.Batch{Name: fmt.Sprintf("random-%d", s), TimeoutS: 600,
-					Params: core.Params(c04Params{Kind: "random", Shard: s, N: tierPick(tier, 2000, 40000)})})
+					Params: core.Params(c04Params{Kind: "random", Shard: s, N: tierPick(tier, 5000, 40000)})})
 			}
 			bs = append(bs, core.Batch{Name: "concurrent", TimeoutS: 600, Params: core.Params(c04Params{Kind: "concurrent", Workers: 8, N: tierPick(tier, 4000, 20000)})})
 			for s := 0; s < tierPick(tier, 2, 8); s++ {
 				bs = append(bs, core.Batch{Name: fmt.Sprintf("service-events-%d", s), TimeoutS: 600,
-					Params: core.Params(c04Params{Kind: "service-events", Shard: s, N: tierPick(tier, 1500, 30000)})})
+					Params: core.Params(c04Params{Kind: "service-events", Shard: s, N: tierPick(tier, 4000, 30000)})})
 			}
 			return bs
 		},
